@@ -217,5 +217,6 @@ def _topo_edges_rust(
     result = rust.topological_sort(n_nodes, edges)
 
     if result["is_acyclic"]:
-        return Result(list(result["order"]), 0, result["iterations"], 0)
+        order = list(result["order"])
+        return Result(order, len(order), result["iterations"], 0)  # objective = nodes ordered, as on the Python path
     return Result(None, 0, result["iterations"], 0, Status.INFEASIBLE)
